@@ -296,5 +296,7 @@ def run(ctx):
             f(ctx)
     if ctx.want("R16a"):
         c16.r16a(ctx)
+    if ctx.want("R16b"):
+        c16.r16b(ctx)
     if ctx.want("R16g"):
         c16.r16g(ctx)
